@@ -61,7 +61,7 @@ var sigTable = []sig{
 		func(b []byte) bool { return has(b, 0, "RIFF") && has(b, 8, "WEBP") },
 		func(b []byte) bool { return has(b, 0, "RIFF") && has(b, 8, "WEBP") }},
 	{imagetype.ImageCRW,
-		func(b []byte) bool { return has(b, 0, "II\x1a\x00\x00\x00HEAPCCDR") },
+		func(b []byte) bool { return has(b, 0, "II") && has(b, 6, "HEAPCCDR") }, // CIFF: byte order, header length (any), "HEAPCCDR"
 		func(b []byte) bool { return (has(b, 0, "II") || has(b, 0, "MM")) && has(b, 6, "HEAPCCDR") }},
 	{imagetype.ImageCR2,
 		func(b []byte) bool { return tiffSig(b) && has(b, 8, "CR\x02\x00") },
